@@ -1963,7 +1963,26 @@ func fsm7(c *Ctx) {
 	nAcc := 0
 	why := ""
 	for _, r := range ir.ReturnPoints(fn) {
-		if v, isC := ir.ConstBool(r.Results[0]); !isC || !v {
+		if _, isC := ir.ConstBool(r.Results[0]); !isC {
+			// a computed verdict (`return s.Terminal && len(x) == 0`): an accept whenever it is true
+			nAcc++
+			good := false
+			if bo, ok := r.Results[0].(*ssa.BinOp); ok && bo.Op == token.EQL {
+				if z, isZ := ir.ConstInt(bo.Y); isZ && z == 0 {
+					if lc, isCall := bo.X.(*ssa.Call); isCall {
+						if b, isB := lc.Call.Value.(*ssa.Builtin); isB && b.Name() == "len" && lc.Call.Args[0] == vec {
+							good = true
+						}
+					}
+				}
+			}
+			if !good {
+				okAcc = false
+				why = fmt.Sprintf("the computed verdict returned at %s is not `the vector handed to Match is empty`: a trailing `--` is not transparent (or input is accepted with tokens left)", c.P.Pos(r.Pos()))
+			}
+			continue
+		}
+		if v, _ := ir.ConstBool(r.Results[0]); !v {
 			continue
 		}
 		// terminal accept = a true return guarded by the state's Terminal flag
